@@ -92,7 +92,18 @@ def config_h_path():
     p = os.path.join(REPO, "config.h")
     if os.path.exists(p):
         return p
-    return FALLBACK_CONFIG_H
+    # the fallback must be reachable as "<dir>/config.h" (callers pass -I dirname): keep a copy under that name
+    d = os.path.join(VERIF, ".cache", "cfg-fallback")
+    q = os.path.join(d, "config.h")
+    try:
+        if not os.path.exists(q) or open(q, "rb").read() != open(FALLBACK_CONFIG_H, "rb").read():
+            os.makedirs(d, exist_ok=True)
+            tmp = q + ".%d" % os.getpid()
+            shutil.copy(FALLBACK_CONFIG_H, tmp)
+            os.replace(tmp, q)
+        return q
+    except OSError:
+        return FALLBACK_CONFIG_H
 
 
 def _prune(keep=40, min_age=2 * 3600):
